@@ -67,6 +67,14 @@ func (r *Registry) Marshal(pubKey PubKey) []byte {
 // therefore the slice must not be modified after calling Unmarshal.
 func (r *Registry) Unmarshal(b []byte) (PubKey, error) {
 	// TODO: more validation against b
+	if len(b) < prefixSize {
+		// Marshalled keys arrive from the network,
+		// so a short value must be an error, not a slice bounds panic.
+		return nil, fmt.Errorf(
+			"marshalled public key too short: need at least %d bytes for the type prefix, got %d",
+			prefixSize, len(b),
+		)
+	}
 	prefix := bytes.TrimRight(b[:prefixSize], "\x00")
 
 	fn := r.byPrefix[string(prefix)]
